@@ -49,7 +49,7 @@ def decode_c20(fdp):
     how = c20.NP_HOW[fdp.ConsumeIntInRange(0, len(c20.NP_HOW) - 1)]
     t = fdp.ConsumeIntInRange(0, 3)
     if t == 0:
-        ix = {'t': 'int', 'i': fdp.ConsumeIntInRange(0, 20), 'neg': fdp.ConsumeBool()}
+        ix = {'t': 'int', 'i': fdp.ConsumeIntInRange(0, 20), 'neg': fdp.ConsumeBool(), 'npint': fdp.ConsumeBool()}
     elif t == 1:
         opt = lambda: (None if fdp.ConsumeBool() else fdp.ConsumeIntInRange(-6, 6))
         ix = {'t': 'slice', 'a': opt(), 'b': opt(), 'c': [None, 1, 2, -1, -2, 3][fdp.ConsumeIntInRange(0, 5)]}
